@@ -407,6 +407,7 @@ func (app *EVMApp) OnCommit(height, round int64, block *gtypes.Block) (interface
 	}
 
 	app.receipts = nil
+	app.kvs = nil
 	app.pool.updateToState()
 	log.Info("application save to db", zap.String("appHash", fmt.Sprintf("%X", appHash.Bytes())), zap.String("receiptHash", fmt.Sprintf("%X", rHash)))
 
